@@ -71,6 +71,7 @@ impl Prop for C09 {
             kind_weights: [1, 4, 6, 1, 2],
             max_tags: 2,
             extreme_ids: true,
+            tag_values: 0,
         };
         history(w, cfg, tier.pick(30, 100)).prop_map(|ops| Case::History { ops }).boxed()
     }
